@@ -49,7 +49,11 @@ fn main() {
                     String::new()
                 };
                 // decoding problems of the harness itself (e.g. an operand that is PANIC) are not library panics
-                if msg.starts_with("harness:") {
+                if msg.starts_with("harness: unknown") {
+                    // an operation the harness does not implement is a machinery error, never a silent skip
+                    eprintln!("{} in case {}", msg, line);
+                    std::process::exit(3);
+                } else if msg.starts_with("harness:") {
                     S::atom("SKIP")
                 } else {
                     S::atom("PANIC")
